@@ -26,7 +26,9 @@ from . import spec, assumptions
 
 assumptions.PROPS['C08'] = {
     'level': 'other', 'assume': ['A1', 'A4', 'A5', 'A6'],
-    'explanation': 'Engine B only: the real helpers.degree_elevation / degree_reduction are executed on fully symbolic '
+    'explanation': 'Engine A (unbounded): sizes, unchanged end points, rejection of non-Bezier input / num <= 0 / degree < 2, the '
+                   'closed form of elevation by one and reduce(elevate(P, 1)) == P for every degree and dimension.  Engine B '
+                   '(bounded): the real helpers.degree_elevation / degree_reduction are executed on fully symbolic '
                    'control polygons (one symbol per coordinate) for every degree 1..8 and elevation count 1..4 of the '
                    'property; the power-basis coefficient vectors of input and output are compared as exact '
                    'polynomial identities.  Bounded by the enumerated (degree, count, dimension) tuples.'}
